@@ -376,7 +376,8 @@ pub fn c09(ctx: &mut Ctx) -> Search {
         ctx.run("pwhash", mk(1, 32, b"password", &salt, 3, m * 1024 + 512))?;
     }
     // longer outputs and passwords
-    let big: Vec<u64> = if t { vec![129, 160, 161, 255, 256, 257, 511, 512, 513, 1024, 1100] } else { vec![129, 160, 161, 256, 1024] };
+    // (beyond 2^16: a digest length taken from a truncated copy of the output length shows only there)
+    let big: Vec<u64> = if t { vec![129, 160, 161, 255, 256, 257, 511, 512, 513, 1024, 1100, 65535, 65536, 65552, 65599, 131072 + 33] } else { vec![129, 160, 161, 256, 1024, 65552] };
     for outlen in big {
         let pw = ctx.rng.bytes((outlen % 300) as usize);
         let salt = ctx.rng.arr::<16>();
